@@ -33,7 +33,7 @@ var outerT *testing.T
 
 func TestMain(m *testing.M) { pbt.Main(m, run) }
 
-var sites = []string{"decode", "reify", "chooser", "read", "write"}
+var sites = []string{"decode", "reify", "chooser", "decode", "reify", "chooser", "decode", "reify", "chooser", "read", "write"}
 
 type Case struct {
 	DAG   dagen.DAG `json:"dag"`  // request 1 (the one that panics)
